@@ -181,6 +181,51 @@ pub fn check_law_batch(law: &Law, g: &SymbolicAsyncGraph, p: &GraphColoredVertic
     None
 }
 
+/// Operator applications over the arguments p, q used by the compositionality check.
+pub const APPLICATIONS: &[&str] = &[
+    "EX %p%", "AX %p%", "EF %p%", "AF %p%", "EG %p%", "AG %p%", "EF %q%", "AF %q%", "EG %q%", "AG %q%", "%p% EU %q%", "%p% AU %q%", "%p% EW %q%", "%p% AW %q%", "%q% EU %p%", "%q% AW %p%",
+    "(%p% | %q%) EU %q%", "EF (%p% | %q%)", "%p% EU (%p% | %q%)", "True AU %q%",
+];
+
+/// Compositionality: the evaluation of one operator application must not depend on which other application was
+/// evaluated before it in the same call. For every ordered pair (A, B): the single formula `A & B` must be the
+/// intersection of A and B evaluated on their own; the batch [A, B] must return both.
+pub fn check_compositional(g: &SymbolicAsyncGraph, p: &GraphColoredVertices, q: &GraphColoredVertices) -> Option<String> {
+    let ctx = ctx_of(p, Some(q), None);
+    let mut single = vec![];
+    for a in APPLICATIONS {
+        match eval(a, g, &ctx) {
+            Ok(s) => single.push(s),
+            Err(e) => return Some(format!("evaluation of {a} fails: {e}")),
+        }
+    }
+    for (i, a) in APPLICATIONS.iter().enumerate() {
+        for (j, b) in APPLICATIONS.iter().enumerate() {
+            if i == j {
+                continue;
+            }
+            let text = format!("({a}) & ({b})");
+            match eval(&text, g, &ctx) {
+                Ok(s) => {
+                    if s != single[i].intersect(&single[j]) {
+                        return Some(format!("`{text}` is not the intersection of `{a}` and `{b}` evaluated on their own"));
+                    }
+                }
+                Err(e) => return Some(format!("evaluation of {text} fails: {e}")),
+            }
+            if i < j && (i + j) % 3 == 0 {
+                match guarded(AssertUnwindSafe(|| mc::model_check_multiple_extended_formulae_dirty(vec![a, b], g, &ctx))) {
+                    Ok(Ok(v)) if v.len() == 2 && v[0] == single[i] && v[1] == single[j] => {}
+                    Ok(Ok(_)) => return Some(format!("the batch [{a}, {b}] does not return the two results of the formulae evaluated on their own")),
+                    Ok(Err(e)) => return Some(format!("the batch [{a}, {b}] fails: Err({e})")),
+                    Err(pn) => return Some(format!("the batch [{a}, {b}] fails: panic({pn})")),
+                }
+            }
+        }
+    }
+    None
+}
+
 /// The graph-library laws on one argument pair (p, q).
 pub fn check_library(g: &SymbolicAsyncGraph, p: &GraphColoredVertices, q: &GraphColoredVertices) -> Option<String> {
     let ctx = ctx_of(p, Some(q), None);
@@ -243,6 +288,9 @@ pub fn replay(case: &Value) -> Option<String> {
     let (p, q, r) = (b.mk_set(&masks("p")?), b.mk_set(&masks("q")?), b.mk_set(&masks("r")?));
     if law_name == "library" {
         return check_library(&b.graph, &p, &q);
+    }
+    if law_name == "compositional" {
+        return check_compositional(&b.graph, &p, &q);
     }
     let law = all.iter().find(|l| l.name == law_name)?;
     if case["batch"].as_bool().unwrap_or(false) {
@@ -466,6 +514,29 @@ pub fn run(tier: &str) -> Result<Report, String> {
             })
             .collect();
         let _ = &ctxo;
+        // compositionality of operator applications (every ordered pair over the same arguments in one formula / batch)
+        if n <= 16 || tier != "quick" {
+            let qc: Vec<usize> = if n <= 16 { (0..n).collect() } else { (0..n).step_by((n / 8).max(1)).collect() };
+            let pc: Vec<usize> = if n <= 16 || tier != "quick" { (0..n).collect() } else { (0..n).step_by((n / 16).max(1)).collect() };
+            let comp_bad: Vec<Violation> = pc
+                .par_iter()
+                .flat_map(|&pi| {
+                    let mut out = vec![];
+                    for &qi in &qc {
+                        if let Some(w) = check_compositional(&b.graph, &sets[pi], &sets[qi]) {
+                            if out.len() < 2 {
+                                out.push(Violation { case: json!({"kind": "law", "law": "compositional", "net": b.spec, "p": sets_m[pi], "q": sets_m[qi], "r": sets_m[0]}), what: format!("on {} with p={:?} q={:?}: {w}", b.name, sets_m[pi], sets_m[qi]), size: 1 });
+                            }
+                        }
+                    }
+                    out
+                })
+                .collect();
+            let napp = APPLICATIONS.len() as u64;
+            rep.evaluations += (pc.len() * qc.len()) as u64 * (napp + napp * (napp - 1));
+            rep.add_count("compositionality_instances_tiny", (pc.len() * qc.len()) as u64 * napp * (napp - 1));
+            rep.violations.extend(comp_bad.into_iter().take(20));
+        }
         rep.evaluations += (n * q_idx.len()) as u64 * 3 + n as u64 * 5;
         rep.traces_validated += n as u64 * 5 * b.cols.len() as u64;
         rep.add_count("library_law_instances_tiny", (n * q_idx.len()) as u64);
@@ -603,6 +674,6 @@ pub fn run(tier: &str) -> Result<Report, String> {
     rep.distinct_nontrivial = rep.extra.get("law_instances_tiny").and_then(|v| v.as_u64()).unwrap_or(0) + big_total;
     rep.set("laws", json!(all.iter().map(|l| format!("{}: {} {} {}", l.name, l.lhs, if l.rel == Rel::Eq { "=" } else { "⊆" }, l.rhs)).collect::<Vec<_>>()));
     rep.sample(json!({"law": "AU fixed point", "network": "con2", "p": [5, 9], "q": [2, 0], "meaning": "per-colour state masks of the wild-card sets; both sides evaluated by the tool and compared as sets"}));
-    rep.rule = format!("{} laws (fixed-point equations, dualities in both directions - a negation directly above every temporal operator -, excluded middle for the until operators, inclusions, monotonicity in every argument, steady states as self-loops) + 3 graph-library laws (EF = reach_backward, AG = trap_forward, EU = reach_bwd in the restricted graph), each instantiated with wild-card arguments (also: every one-argument law and the library laws on every one of the 256 state sets of 512 (quick: 128) three-variable networks built from a menu of 8 update functions per variable; on the tiny networks every law x first-argument set also with both sides submitted as one batch, in both orders, to model_check_multiple_extended_formulae_dirty): on the tiny networks {which:?} with EVERY coloured set as p (all pairs (p,q) when the network has <= 16 sets, or <= 256 in the thorough tier; otherwise q from a spread of 16, r from a spread of 4), anchored by the explicit-state oracle; on the bundled models {models:?} with a declared family (literals, conjunctions/disjunctions of two literals over the first 4 variables, each also cut by each half of the colour space, empty, unit, results of two formulae). distinct_nontrivial = number of law instances (distinct (law, argument tuple, network))", all.len());
+    rep.rule = format!("{} laws (fixed-point equations, dualities in both directions - a negation directly above every temporal operator -, excluded middle for the until operators, inclusions, monotonicity in every argument, steady states as self-loops) + 3 graph-library laws (EF = reach_backward, AG = trap_forward, EU = reach_bwd in the restricted graph), each instantiated with wild-card arguments (also: every one-argument law and the library laws on every one of the 256 state sets of 512 (quick: 128) three-variable networks built from a menu of 8 update functions per variable; on the tiny networks every law x first-argument set also with both sides submitted as one batch, in both orders, to model_check_multiple_extended_formulae_dirty; compositionality: for every ordered pair (A, B) of 20 operator applications over the same arguments the single formula `A & B` must be the intersection of A and B evaluated on their own, and the batch [A, B] must return both - all (p, q) on networks with <= 16 sets, a spread of q otherwise (thorough): on the tiny networks {which:?} with EVERY coloured set as p (all pairs (p,q) when the network has <= 16 sets, or <= 256 in the thorough tier; otherwise q from a spread of 16, r from a spread of 4), anchored by the explicit-state oracle; on the bundled models {models:?} with a declared family (literals, conjunctions/disjunctions of two literals over the first 4 variables, each also cut by each half of the colour space, empty, unit, results of two formulae). distinct_nontrivial = number of law instances (distinct (law, argument tuple, network))", all.len());
     Ok(rep)
 }
